@@ -48,8 +48,6 @@ def run(ctx, replay):
     # completeStage calls (all 3 / 30 orders of two / three stages, a sample of the 630 orders of four)
     summ, rc, _ = ctx.run_vdrive(["pipeline", "--seed", ctx.seed, "--traces", n, "--out", tr,
                                   "--stages", 6 if thorough else 5, "--orders", 630 if thorough else 60])
-    for u in summ["unresolved"]:
-        raise vcore.Unresolved("pipeline driver: %s" % u)
     for s in summ["samples"]:
         ctx.sample(s)
     extra = summ.get("extra") or {}
@@ -59,6 +57,10 @@ def run(ctx, replay):
     ctx.extra["distinct_schedules"] = summ["distinct"]
     ctx.extra["events"] = summ["events"]
     vcore.validate_all(ctx, "PipelineTrace", "PipelineTrace.cfg", tr, describe=describe)
+    # a finishing order that could not be scheduled although every thread finished: the exploration is not what it claims
+    # (judged after the validation: what the real code did in those runs is evidence either way)
+    for u in summ["unresolved"]:
+        raise vcore.Unresolved("pipeline driver: %s" % u)
     # free-running (no gates): the timing-dependent interleavings of the real pool
     tr2 = os.path.join(ctx.scratch, "pipeline-free.ndjson")
     summ2, rc, _ = ctx.run_vdrive(["pipeline", "--seed", ctx.seed + 7, "--traces", n // 2, "--out", tr2, "--free"])
